@@ -94,6 +94,21 @@ Error:
     return 1;
 }
 
+/// Discards whatever an earlier acquisition left unread for `reader`.
+/// Only call this while no thread is using `reader`.
+static void
+discard_unread(struct channel* channel, struct channel_reader* reader)
+{
+    size_t nbytes;
+    if (!reader->id)
+        return; // never registered: nothing is held back for it
+    do {
+        struct slice slice = channel_read_map(channel, reader);
+        nbytes = (uint8_t*)slice.end - (uint8_t*)slice.beg;
+        channel_read_unmap(channel, reader, nbytes);
+    } while (nbytes);
+}
+
 enum DeviceStatusCode
 video_sink_start(struct video_sink_s* self)
 {
@@ -112,6 +127,9 @@ video_sink_start(struct video_sink_s* self)
            device_state_as_string(storage_get_state(self->storage)));
 
     channel_accept_writes(&self->in, 1);
+    // A sink thread that stopped on a storage error leaves frames of that
+    // acquisition unread. They must not be stored as part of this one.
+    discard_unread(&self->in, &self->reader);
     self->is_stopping = 0;
     self->is_running = 1;
     CHECK(
